@@ -28,7 +28,7 @@ def gen_designs(ctx, n, prefix='G', ys_safe_fraction=0.0):
   for j in range(n):
     r = random.Random(ctx.rng.randrange(1 << 30))
     safe = r.random() < ys_safe_fraction
-    g = sv_gen.Gen(r, f'{prefix}{j}', size=r.choice(['small', 'medium', 'medium', 'large']), uid=f'{prefix}{j}', ys_safe=safe).build()
+    g = sv_gen.Gen(r, f'{prefix}{j}', size=r.choice(['small', 'medium', 'medium', 'large']), uid=f'{prefix}{j}', ys_safe=safe, yosys=ys_safe_fraction > 0).build()
     if safe: g.features.add('ys-safe')
     src = g.source()
     cls, _ = sc.load_source(ctx, src, g.name)
